@@ -62,6 +62,9 @@ def run(ctx):
     from . import c10
 
     c10.local_numbering_tables(ctx)  # dual / barycentric spaces: tables keyed by local vertex and edge numbers
+    from .. import state as _state
+
+    _state.process_state(ctx)  # spaces and their localised companions are built per space, not served from a module-level table under an incomplete key
 
 
 def geometry(ctx):
